@@ -127,8 +127,13 @@ def _po():
 class Plan(object):
     """One (program, flags) combination."""
 
-    def __init__(self, mid, flags, kinds, tol=False, needs=()):
+    def __init__(self, mid, flags, kinds, tol=False, needs=(), aux=False):
         self.mid, self.flags, self.kinds, self.tol, self.needs = mid, flags, kinds, tol, needs
+        self.aux = aux      # round 4: body of `auxProg` (Model/ProxAux.lean), protocol op `aux`
+
+    @property
+    def label(self):
+        return ('aux/' if self.aux else 'prog/') + '{}/{}'.format(self.mid, self.flags or '-')
 
 
 T = ('rn', 'discr', 'rnc', 'rnw')          # element-wise bodies: every tensor-like space
@@ -166,6 +171,54 @@ def plans():
     return out
 
 
+def aux_plans():
+    """Round 4: `PointwiseNorm._abs_pow_ufunc` (3 branches) and the gradient operators of
+    default_functionals.py (model: Model/ProxAux.lean, `auxProg`)."""
+    out = [Plan('absPowSqrt', '', T, aux=True), Plan('absPowSq', '', T, aux=True),
+           Plan('absPowGen', '', T, tol=True, aux=True),
+           Plan('gradL1', '', T, aux=True), Plan('gradL2', '', TC, tol=True, aux=True)]
+    for g in (0, 1):
+        out.append(Plan('gradKL', str(g), T, aux=True))
+        out.append(Plan('gradKLCC', str(g), T, aux=True))
+        out.append(Plan('gradKLCE', str(g), T, tol=True, aux=True))
+        out.append(Plan('gradKLCECC', str(g), T, tol=True, aux=True))
+    out.append(Plan('gradHuber', '0', T, aux=True))
+    out.append(Plan('gradHuber', '1', PS, aux=True))
+    out.append(Plan('gradGroupL1', '', PS, aux=True))
+    out.append(Plan('rosen', '', ('rn2p',), tol=True, aux=True))
+    # the bodies are shape-polymorphic (element-wise on the flattened data): the same programs are
+    # compared on 2-d tensor / discretized spaces too
+    for p in out:
+        if p.kinds in (T, TC):
+            p.kinds = p.kinds + ('rn2d', 'discr2d')
+    return out
+
+
+def plans_2d():
+    """Round 4: the element-wise bodies of `prog` (plans whose spaces are the tensor-like kinds)
+    on 2-d spaces, which were oracle-only before: same programs, data flattened in C order."""
+    return [Plan(p.mid, p.flags, ('rn2d', 'discr2d'), tol=p.tol) for p in plans()
+            if p.kinds in (T, TC)]
+
+
+def all_plans():
+    return plans() + aux_plans()
+
+
+class MethodOp(object):
+    """`PointwiseNorm._abs_pow_ufunc(fi, out, p)` presented with the calling convention of an
+    operator (the method has no out-of-place form: `P(x)` writes into a new element)."""
+
+    def __init__(self, pn, space, p):
+        self.pn, self.domain, self.range, self.p = pn, space, space, p
+
+    def __call__(self, x, out=None):
+        if out is None:
+            out = self.range.element()
+        self.pn._abs_pow_ufunc(x, out=out, p=self.p)
+        return out
+
+
 def grid(rng, n, lo=-24, hi=24, den=8.0):
     return np.array([rng.randint(lo, hi) for _ in range(n)], dtype=float) / den
 
@@ -183,6 +236,9 @@ def make_space(kind, rng):
         n = rng.choice([1, 2, 3, 5])
         c = rng.choice([0.5, 2.0, 4.0, 0.25])
         return odl.rn(n, weighting=c), n, 1, c
+    if kind == 'rn2p':
+        n = rng.choice([2, 3, 4, 6])
+        return odl.rn(n), n, 1, 1.0
     if kind == 'rnw':
         n = rng.choice([1, 2, 3, 5])
         wts = np.array([rng.choice([0.5, 1.0, 2.0, 4.0]) for _ in range(n)])
@@ -361,6 +417,41 @@ def build(plan, kind, rng, xclass):
         P = odl.PowerOperator(space, par['p'])
         if par['p'] not in (2.0, 3.0):
             x = np.abs(x) + 0.125
+    elif mid in ('absPowSqrt', 'absPowSq', 'absPowGen'):
+        # the method of a PointwiseNorm on ProductSpace(space, 2); exponent chosen so that the
+        # library's own aliased call `_abs_pow_ufunc(out, out=out, p=1/exponent)` takes this branch
+        # where one exists (0.5 <- exponent 2, 0.25 <- exponent 4)
+        p = {'absPowSqrt': 0.5, 'absPowSq': 2.0}.get(mid) or rng.choice([3.0, 1.5, 0.25])
+        par['p'] = p
+        pn = odl.PointwiseNorm(odl.ProductSpace(space, 2),
+                               exponent={0.5: 2.0, 0.25: 4.0}.get(p, 3.0))
+        P = MethodOp(pn, space, p)
+    elif mid in ('gradL1', 'gradL2'):
+        P = (odl.solvers.L1Norm(space) if mid == 'gradL1' else odl.solvers.L2Norm(space)).gradient
+    elif mid in ('gradKL', 'gradKLCC', 'gradKLCE', 'gradKLCECC'):
+        prior = None
+        if fl[0] == '1':
+            gvals = np.abs(gvals) + 0.125
+            bufs['g'] = gvals
+            prior = make_elem(space, gvals)
+            elems['g'] = prior
+        if mid in ('gradKLCE',) and xclass not in ('zero',):
+            x = np.abs(x) + 0.125          # the gradient raises for non-positive entries
+        if mid == 'gradKLCC':
+            x = np.where(x == 1.0, 0.5, x)
+        S = odl.solvers
+        fun = S.KullbackLeibler(space, prior=prior) if mid in ('gradKL', 'gradKLCC') else \
+            S.KullbackLeiblerCrossEntropy(space, prior=prior)
+        P = (fun if mid in ('gradKL', 'gradKLCE') else fun.convex_conj).gradient
+    elif mid == 'gradHuber':
+        P = odl.solvers.Huber(space, par['gamma']).gradient
+        if xclass == 'thr':
+            x = par['gamma'] * np.array([rng.choice([-1.0, 1.0, 0.5]) for _ in range(N)])
+    elif mid == 'gradGroupL1':
+        P = odl.solvers.GroupL1Norm(space).gradient
+    elif mid == 'rosen':
+        par['a'] = rng.choice([1.0, 2.0, 0.5, 100.0])
+        P = odl.solvers.RosenbrockFunctional(space, scale=par['a']).gradient
     else:
         raise KeyError(mid)
     if mid in ('ccL1', 'ccL1L2'):
@@ -385,9 +476,9 @@ def model_line(c, alias, junk):
     par = c['par']
     N = c['n'] * c['mc']
     b = c['bufs']
-    return ('prox id={} flags={} alias={} n={} mc={} w={} p={} lam={} sigma={} gamma={} radius={} '
+    return ('{} id={} flags={} alias={} n={} mc={} w={} p={} lam={} sigma={} gamma={} radius={} '
             'eps={} cw={} a={} b={} x={} j={} g={} sig={} lo={} up={}').format(
-        c['plan'].mid, c['plan'].flags or '-', int(alias), c['n'], c['mc'], bits(c['w']),
+        'aux' if c['plan'].aux else 'prox', c['plan'].mid, c['plan'].flags or '-', int(alias), c['n'], c['mc'], bits(c['w']),
         bits(par['p']), bits(par['lam']), bits(par['sigma']), bits(par['gamma']),
         bits(par['radius']), bits(par['eps']), bits(par['cw']), bits(par['a']), bits(par['b']),
         bl(c['x']), bl(junk), *[bl(b[k]) if b[k] is not None else '-' for k in
@@ -453,6 +544,19 @@ def call_real(P, x_elem, mode, space, lincomb_second=None):
         return 'ok', flat(y), None, (r is y)
     except Exception as e:  # noqa
         return 'err:{}:{}'.format(type(e).__name__, str(e)[:100]), None, None, False
+
+
+def call_real_keep(P, x_elem, mode, space):
+    """Like `call_real` for the in-place modes, but the buffers are reported also when the call
+    raises (what an exception leaves behind in `out` / `x`)."""
+    xin = x_elem.copy()
+    out = xin if mode == 'alias' else make_elem(space, junk_vals(flat(x_elem).size))
+    try:
+        P(xin, out=out)
+        st = 'ok'
+    except Exception as e:  # noqa
+        st = 'raised:{}'.format(type(e).__name__)
+    return st, flat(out), (None if mode == 'alias' else flat(xin)), True
 
 
 def oracle(ctx, key, desc, P, x_elem, space, tol, second=None, frames=()):
@@ -627,6 +731,150 @@ def check_class_set(ctx):
     ctx.extra['uncovered_classes'] = uncovered
 
 
+ALL_ODL_SITES = {
+    # (file, enclosing definition, callee) of every `f(a, out=a)` on a non-ufunc callee outside
+    # odl/solvers, with what covers it. A site not listed here breaks the obligation.
+    ('odl/operator/tensor_ops.py', 'PointwiseNorm._call_vecfield_p', 'self._abs_pow_ufunc'):
+        'model programs absPowSqrt / absPowSq / absPowGen (theorem C10.aux_alias_safe)',
+    ('odl/trafos/fourier.py', 'FourierTransform._call_numpy', 'self._postprocess'):
+        'ndarray helper (dft_postprocess_data -> fast_1d_tensor_mult): not modelled in C10',
+    ('odl/trafos/fourier.py', 'FourierTransform._call_pyfftw', 'self._postprocess'):
+        'ndarray helper (dft_postprocess_data -> fast_1d_tensor_mult): not modelled in C10',
+    ('odl/trafos/fourier.py', 'FourierTransformInverse._call_numpy', 'self._postprocess'):
+        'ndarray helper (dft_postprocess_data -> fast_1d_tensor_mult): not modelled in C10',
+    ('odl/trafos/fourier.py', 'FourierTransformInverse._call_pyfftw', 'self._postprocess'):
+        'ndarray helper (dft_postprocess_data -> fast_1d_tensor_mult): not modelled in C10',
+    ('odl/trafos/fourier.py', 'FourierTransform._postprocess', 'dft_postprocess_data'):
+        'ndarray helper (dft_postprocess_data -> fast_1d_tensor_mult): not modelled in C10',
+    ('odl/trafos/util/ft_utils.py', 'dft_preprocess_data', 'fast_1d_tensor_mult'):
+        'ndarray helper (`out[:] = ndarr` self-assignment, then `out *= ...`): not modelled in C10',
+    ('odl/trafos/util/ft_utils.py', 'dft_postprocess_data', 'fast_1d_tensor_mult'):
+        'ndarray helper (`out[:] = ndarr` self-assignment, then `out *= ...`): not modelled in C10',
+}
+UFUNC_LIKE = ('divide', 'multiply', 'lincomb', 'maximum', 'minimum', 'absolute', 'sqrt', 'square',
+              'sign', 'exp', 'log', 'power', 'add', 'subtract')
+
+
+def all_odl_aliased_sites():
+    """Every call in odl (outside odl/solvers, odl/contrib, tests) in which the `out=` keyword is
+    syntactically one of the positional arguments, except NumPy / space ufunc-like methods
+    (one call reading its inputs before writing: the stated assumption)."""
+    sites = []
+    for rel in _py_files('odl'):
+        if rel.startswith(('odl/solvers', 'odl/contrib')):
+            continue
+        try:
+            with open(os.path.join(core.REPO, rel)) as f:
+                tree = ast.parse(f.read())
+        except Exception:
+            continue
+        parents = {}
+        for node in ast.walk(tree):
+            for ch in ast.iter_child_nodes(node):
+                parents[ch] = node
+        for node in ast.walk(tree):
+            if not isinstance(node, ast.Call):
+                continue
+            outs = [k.value for k in node.keywords if k.arg == 'out']
+            if not outs or ast.unparse(outs[0]) not in [ast.unparse(a) for a in node.args]:
+                continue
+            if isinstance(node.func, ast.Attribute) and node.func.attr in UFUNC_LIKE:
+                continue
+            if isinstance(node.func, ast.Attribute) and \
+                    ast.unparse(node.func.value) in ('np', 'numpy'):
+                continue
+            enc, q = [], node
+            while q in parents:
+                q = parents[q]
+                if isinstance(q, (ast.FunctionDef, ast.ClassDef)):
+                    enc.append(q.name)
+            sites.append((rel, '.'.join(reversed(enc)), ast.unparse(node.func), node.lineno))
+    return sites
+
+
+def gradient_classes():
+    """Operator classes defined inside a `gradient` property/method anywhere under odl/solvers
+    (by AST), with whether `_call` takes `out`."""
+    found = {}
+
+    def visit(node, rel, in_grad):
+        for child in ast.iter_child_nodes(node):
+            if isinstance(child, (ast.FunctionDef, ast.AsyncFunctionDef)):
+                visit(child, rel, in_grad or child.name == 'gradient')
+            elif isinstance(child, ast.ClassDef):
+                bases = [ast.unparse(b) for b in child.bases]
+                if in_grad and any(b.split('.')[-1].endswith('Operator') for b in bases):
+                    for fn in child.body:
+                        if isinstance(fn, ast.FunctionDef) and fn.name == '_call':
+                            found[child.name] = ('{}:{}'.format(rel, child.lineno),
+                                                 'out' in [a.arg for a in fn.args.args])
+                visit(child, rel, in_grad)
+            else:
+                visit(child, rel, in_grad)
+    for rel in _py_files('odl/solvers'):
+        with open(os.path.join(core.REPO, rel)) as f:
+            visit(ast.parse(f.read()), rel, False)
+    return found
+
+
+NOT_MODELLED_GRADIENTS = {
+    'FunctionalCompositionGradient': 'out-of-place composite `op.adjoint(func.gradient(op(x)))`: '
+                                     'operator calls, default bridge; oracle only',
+    'FunctionalProductGradient': 'out-of-place composite of two functionals and their gradients '
+                                 '(element arithmetic); default bridge; not modelled',
+    'FunctionalQuotientGradient': 'out-of-place composite of two functionals and their gradients '
+                                  '(element arithmetic); default bridge; not modelled',
+}
+
+
+def check_aux_class_set(ctx):
+    """Round 4 obligations: (1) every gradient Operator class of odl/solvers has a model body
+    (and every model body names an existing class); (2) every aliased call site of ALL of odl is
+    classified."""
+    found = gradient_classes()
+    ans = core.run_driver('C10', ['auxtable'])[0]
+    table = ans[len('ok classes='):].split(',') if ans.startswith('ok classes=') else []
+    for nm in sorted(found):
+        ctx.hit('aux-class/' + nm)
+        if nm not in table and nm not in NOT_MODELLED_GRADIENTS:
+            ctx.disagree({'kind': 'aux-class-set', 'class': nm, 'where': found[nm][0]},
+                         'gradient operator class exists in /repo', 'no model body',
+                         stream='aux-class-set')
+    for nm in table:
+        if nm == 'PointwiseNorm._abs_pow_ufunc':
+            import odl
+            if not hasattr(odl.PointwiseNorm, '_abs_pow_ufunc'):
+                ctx.disagree({'kind': 'aux-class-set', 'class': nm}, 'method no longer exists',
+                             'model body exists', stream='aux-class-set')
+        elif nm not in found:
+            ctx.disagree({'kind': 'aux-class-set', 'class': nm},
+                         'gradient class no longer in odl/solvers (renamed/removed)',
+                         'model body exists', stream='aux-class-set')
+    sites = all_odl_aliased_sites()
+    listed = []
+    for rel, enc, callee, line in sites:
+        cover = ALL_ODL_SITES.get((rel, enc, callee))
+        listed.append({'site': '{}:{}'.format(rel, line), 'in': enc, 'callee': callee,
+                       'covered_by': cover})
+        ctx.hit('aliased-site-all/' + ('classified' if cover else 'unclassified'))
+        if cover is None:
+            ctx.disagree({'kind': 'aliased-call-site-all', 'site': '{}:{}'.format(rel, line),
+                          'in': enc, 'callee': callee},
+                         '`{}` is applied with out identical to its argument'.format(callee),
+                         'site not classified: no model body / theorem covers it',
+                         stream='aliased-call-site-all')
+    seen = {(r, e, c) for r, e, c, _ in sites}
+    for k in ALL_ODL_SITES:
+        if k not in seen:
+            ctx.disagree({'kind': 'aliased-call-site-all', 'site': list(k)},
+                         'site no longer present in /repo', 'listed in ALL_ODL_SITES',
+                         stream='aliased-call-site-all')
+    ctx.extra['aliased_call_sites_all_odl'] = listed
+    ctx.extra['gradient_operator_classes'] = {k: v[0] for k, v in found.items()}
+    ctx.extra['gradient_classes_not_modelled'] = {k: v for k, v in NOT_MODELLED_GRADIENTS.items()
+                                                  if k in found}
+
+
 def describe(c):
     return {'kind': 'prog', 'id': c['plan'].mid, 'flags': c['plan'].flags, 'space': c['kind'],
             'cseed': c.get('cseed'), 'n': c['n'], 'mc': c['mc'], 'xclass': c['xclass'],
@@ -645,8 +893,11 @@ def run_prog_case(ctx, c, lines, pending):
     frames = [(nm, e) for nm, e in c.get('elems', {}).items() if hasattr(e, 'space')]
     res, problems = oracle(ctx, None, None, c['P'], x_elem, space, plan.tol, second, frames)
     desc = describe(c)
-    key = 'prox {} flags={} space={} xclass={}'.format(plan.mid, plan.flags or '-', c['kind'],
-                                                       c['xclass'])
+    key = '{} {} flags={} space={} xclass={}'.format('aux' if plan.aux else 'prox', plan.mid,
+                                                     plan.flags or '-', c['kind'], c['xclass'])
+    if problems and plan.aux and res['oop'][0] == 'ok' and \
+            not np.all(np.isfinite(res['oop'][1])):
+        key += ' nonfinite-result'
     if problems:
         ctx.violation(key, '; '.join(problems)[:600], desc)
     st = res['oop'][0]
@@ -661,7 +912,9 @@ def run_prog_case(ctx, c, lines, pending):
              sample={'case': {k: desc[k] for k in ('id', 'flags', 'space', 'x', 'par')},
                      'P(x)': [float(v) for v in res['oop'][1]] if st == 'ok' else st}
              if c['n'] * c['mc'] <= 3 else None)
-    ctx.hit('prog/{}/{}'.format(plan.mid, plan.flags or '-'))
+    ctx.hit(plan.label)
+    if plan.aux:
+        aux_branch_hits(ctx, c, st)
     if st == 'ok' and plan.mid == 'l2':
         gz = c['bufs']['g'] if c['bufs']['g'] is not None else np.zeros_like(c['x'])
         ctx.hit('branch/l2/' + ('step>=1(set_zero|assign g)' if np.array_equal(res['oop'][1], gz)
@@ -670,7 +923,21 @@ def run_prog_case(ctx, c, lines, pending):
         inside = np.sum(np.abs(c['x'])) <= (c['par']['sigma'] if plan.mid == 'linfty' else 1.0) \
             / c['par']['cw']
         ctx.hit('branch/proj_l1/' + ('inside-ball(copy)' if inside else 'outside(simplex)'))
-    if st != 'ok':
+    if st != 'ok' and plan.mid == 'gradKLCE' and 'ValueError' in st:
+        # the raise path of the body: what the exception leaves in `out` / `x` is compared with
+        # the model (theorem C10.klce_gradient_raise_writes_nothing)
+        res = dict(res, junk=call_real_keep(c['P'], x_elem, 'junk', space),
+                   alias=call_real_keep(c['P'], x_elem, 'alias', space))
+        for mode in ('junk', 'alias'):
+            if not res[mode][0].startswith('raised'):
+                ctx.violation(key, 'P(x) raises but the {} call does not'.format(mode), desc)
+                return
+            res[mode] = ('ok',) + res[mode][1:]
+        if not np.all(np.isnan(res['junk'][1])) or not same(res['alias'][1], c['x'], False) or \
+                not same(res['junk'][2], c['x'], False):
+            ctx.violation(key + ' raise-path', 'the raising call modified out or x: out={} x={}'
+                          .format(res['junk'][1][:6], res['alias'][1][:6]), desc)
+    elif st != 'ok':
         ctx.err(st.split(':')[1])
         return
     N = c['n'] * c['mc']
@@ -679,7 +946,7 @@ def run_prog_case(ctx, c, lines, pending):
     # K aliased calls on the same element (solver-like iteration): the executed `aliasedCalls`
     # of the model (theorem C10.history_invariant) vs the real operator
     it = None
-    if plan.mid != 'lincombOp':
+    if plan.mid not in ('lincombOp', 'rosen'):   # rosen: the aliased iterates overflow
         try:
             y = make_elem(space, c['x'])
             for _ in range(3):
@@ -687,18 +954,44 @@ def run_prog_case(ctx, c, lines, pending):
             it = ('ok', flat(y))
         except Exception as e:  # noqa
             it = ('err:{}'.format(type(e).__name__), None)
+            if plan.mid == 'gradKLCE' and isinstance(e, ValueError):
+                # a raising call writes nothing, so do the following ones: the model's
+                # `aliasedCalls 3` must hold what the last successful call left
+                it = ('ok', flat(y))
     lines.append(model_line(c, True, junk_vals(N)) + ' iters=3')
     pending.append((c, desc, res, it))
+
+
+def aux_branch_hits(ctx, c, st):
+    """Branches of the round-4 bodies, determined from the INPUT (not from the model)."""
+    mid, x = c['plan'].mid, np.asarray(c['x'], dtype=float)
+    if mid == 'gradL2':
+        ctx.hit('aux-branch/gradL2/' + ('norm==0(zero)' if not np.any(x) else 'norm!=0(x/norm)'))
+    elif mid == 'gradKLCE':
+        ctx.hit('aux-branch/gradKLCE/' + ('raise' if st != 'ok' else 'finite'))
+    elif mid == 'gradHuber':
+        nrm = np.abs(x) if c['mc'] == 1 else np.sqrt((x.reshape(c['mc'], c['n']) ** 2).sum(0))
+        if np.any(nrm >= c['par']['gamma']):
+            ctx.hit('aux-branch/gradHuber/large(x/norm)')
+        if np.any(nrm < c['par']['gamma']):
+            ctx.hit('aux-branch/gradHuber/small(x/gamma)')
+    elif mid == 'gradGroupL1':
+        nrm = np.sqrt((x.reshape(c['mc'], c['n']) ** 2).sum(0))
+        ctx.hit('aux-branch/gradGroupL1/' + ('some-zero-norm' if np.any(nrm == 0) else 'nonzero'))
+    elif mid.startswith('absPow'):
+        ctx.hit('aux-branch/absPow/p={}'.format(c['par']['p']))
 
 
 def compare_model(ctx, pending, outs):
     for k, (c, desc, res, it) in enumerate(pending):
         plan = c['plan']
+        pre = 'aux-' if plan.aux else ''
         ans3 = outs[3 * k + 2]
         if it is not None:
             if it[0] != 'ok' or not ans3.startswith('ok '):
                 if not (it[0] != 'ok' and res['alias'][0] != 'ok'):
-                    ctx.disagree(dict(desc, iters=3), it[0], ans3[:120], stream='iterated-alias')
+                    ctx.disagree(dict(desc, iters=3), it[0], ans3[:120],
+                                 stream=pre + 'iterated-alias')
             else:
                 f3 = dict(t.split('=', 1) for t in ans3.split()[1:])
                 if not same(parse_bl(f3['b0']), it[1], True if plan.tol else 1e-300) and \
@@ -706,29 +999,31 @@ def compare_model(ctx, pending, outs):
                     ctx.disagree(dict(desc, iters=3),
                                  'x after 3 aliased calls = {}'.format([float(v) for v in it[1]][:8]),
                                  'aliasedCalls 3 = {}'.format(parse_bl(f3['b0'])[:8]),
-                                 stream='iterated-alias')
-            ctx.hit('iterated-alias/{}/{}'.format(plan.mid, plan.flags or '-'))
+                                 stream=pre + 'iterated-alias')
+            ctx.hit('{}iterated-alias/{}/{}'.format(pre, plan.mid, plan.flags or '-'))
         for alias, ans in ((False, outs[3 * k]), (True, outs[3 * k + 1])):
             mode = 'alias' if alias else 'junk'
             if res[mode][0] != 'ok':
-                ctx.disagree(dict(desc, alias=alias), res[mode][0], ans[:200])
+                ctx.disagree(dict(desc, alias=alias), res[mode][0], ans[:200], stream=pre + 'correspondence')
                 continue
             if not ans.startswith('ok '):
-                ctx.disagree(dict(desc, alias=alias), 'ok', ans[:200])
+                ctx.disagree(dict(desc, alias=alias), 'ok', ans[:200], stream=pre + 'correspondence')
                 continue
             f = dict(t.split('=', 1) for t in ans.split()[1:])
             mout = parse_bl(f['b0'] if alias else f['b1'])
             if not same(mout, res[mode][1], plan.tol):
                 ctx.disagree(dict(desc, alias=alias),
                              'out = {}'.format([float(v) for v in res[mode][1]][:8]),
-                             'out = {}'.format(mout[:8]))
+                             'out = {}'.format(mout[:8]), stream=pre + 'correspondence')
                 continue
             # frame on the model side: x (non-aliased) and data buffers unchanged
             if not alias and not same(parse_bl(f['b0']), c['x'], False):
-                ctx.disagree(dict(desc, alias=alias), 'x unchanged', 'model writes x')
+                ctx.disagree(dict(desc, alias=alias), 'x unchanged', 'model writes x',
+                             stream=pre + 'correspondence')
             for nm, bid in (('g', 'b2'), ('sig', 'b3'), ('lo', 'b4'), ('up', 'b5')):
                 if c['bufs'][nm] is not None and not same(parse_bl(f[bid]), c['bufs'][nm], False):
-                    ctx.disagree(dict(desc, alias=alias), nm + ' unchanged', 'model writes ' + nm)
+                    ctx.disagree(dict(desc, alias=alias), nm + ' unchanged', 'model writes ' + nm,
+                                 stream=pre + 'correspondence')
 
 
 # ---------------------------------------------------------------------------
@@ -909,10 +1204,10 @@ def run_oracle_stream(ctx, gen, label, only=None, fixed_x=None):
         ctx.extra.setdefault('not_constructible', {}).update(unavailable)
 
 
-def prog_stream(ctx, reps):
+def prog_stream(ctx, reps, plan_list=None):
     rng = ctx.rng
     lines, pending = [], []
-    for plan in plans():
+    for plan in (plans() if plan_list is None else plan_list):
         for kind in plan.kinds:
             classes = ['gen'] * reps + ['zero', 'large', 'small', 'thr']
             for xclass in classes:
@@ -1166,7 +1461,16 @@ def report_unhit(ctx):
         ['history/{}/{}'.format(p.mid, p.flags or '-') for p in plans()] + \
         ['history/cross-instance/{}/{}'.format(p.mid, p.flags or '-') for p in plans()] + \
         ['branch/l2/step<1(lincomb)', 'branch/l2/step>=1(set_zero|assign g)',
-         'branch/proj_l1/inside-ball(copy)', 'branch/proj_l1/outside(simplex)']
+         'branch/proj_l1/inside-ball(copy)', 'branch/proj_l1/outside(simplex)'] + \
+        [p.label for p in aux_plans()] + \
+        ['aux-iterated-alias/{}/{}'.format(p.mid, p.flags or '-') for p in aux_plans()
+         if p.mid != 'rosen'] + \
+        ['aux-branch/gradL2/norm==0(zero)', 'aux-branch/gradL2/norm!=0(x/norm)',
+         'aux-branch/gradKLCE/raise', 'aux-branch/gradKLCE/finite',
+         'aux-branch/gradHuber/large(x/norm)', 'aux-branch/gradHuber/small(x/gamma)',
+         'aux-branch/gradGroupL1/some-zero-norm', 'aux-branch/gradGroupL1/nonzero',
+         'aux-branch/absPow/p=0.5', 'aux-branch/absPow/p=2.0', 'aux-branch/absPow/p=0.25'] + \
+        ['prog-2d/{}/{}'.format(p.mid, k) for p in plans_2d() for k in p.kinds]
     unhit = [b for b in expected if not ctx.branches.get(b)]
     ctx.extra['unhit_model_branches'] = unhit
     if unhit and not ctx.quick:
@@ -1185,6 +1489,16 @@ def run(ctx):
     extra_space_stream(ctx, 1 if ctx.quick else 6)
     run_oracle_stream(ctx, wrapper_cases(ctx, 1 if ctx.quick else 10), 'wrapper')
     run_oracle_stream(ctx, functional_cases(ctx, 1 if ctx.quick else 10), 'functional')
+    # round 4 (after the older streams: their random draws are unchanged)
+    check_aux_class_set(ctx)
+    lines, pending = prog_stream(ctx, reps, aux_plans())
+    outs = core.run_driver('C10', lines)
+    compare_model(ctx, pending, outs)
+    lines, pending = prog_stream(ctx, 1 if ctx.quick else 10, plans_2d())
+    for c, _, _, _ in pending:
+        ctx.hit('prog-2d/{}/{}'.format(c['plan'].mid, c['kind']))
+    outs = core.run_driver('C10', lines)
+    compare_model(ctx, pending, outs)
     report_unhit(ctx)
 
 
@@ -1192,7 +1506,7 @@ def search(ctx, broken):
     """A proof obligation / the class set / the correspondence broke but the oracle found
     nothing: run the oracle much harder on the real code (no model involved)."""
     rng = ctx.rng
-    for plan in plans():
+    for plan in all_plans():
         for kind in plan.kinds:
             for xclass in ['gen'] * 25 + ['zero', 'large', 'small', 'thr'] * 3:
                 try:
@@ -1205,9 +1519,12 @@ def search(ctx, broken):
                 res, problems = oracle(ctx, None, None, c['P'], x_elem, space, plan.tol, second)
                 ctx.evaluations += 1
                 if problems:
-                    ctx.violation('prox {} flags={} space={} xclass={}'.format(
-                        plan.mid, plan.flags or '-', kind, xclass), '; '.join(problems)[:600],
-                        describe(c))
+                    skey = '{} {} flags={} space={} xclass={}'.format(
+                        'aux' if plan.aux else 'prox', plan.mid, plan.flags or '-', kind, xclass)
+                    if plan.aux and res['oop'][0] == 'ok' and \
+                            not np.all(np.isfinite(res['oop'][1])):
+                        skey += ' nonfinite-result'
+                    ctx.violation(skey, '; '.join(problems)[:600], describe(c))
     try:
         history_stream(ctx, 6)
     except core.DriverBroken:
@@ -1218,7 +1535,7 @@ def search(ctx, broken):
 
 def replay(ctx, case):
     """Re-run exactly the recorded case (its seed determines space, parameters, data, x)."""
-    plan = [p for p in plans() if p.mid == case.get('id') and p.flags == case.get('flags')]
+    plan = [p for p in all_plans() if p.mid == case.get('id') and p.flags == case.get('flags')]
     sub = core.Ctx('C10', 'quick', 0)
     if case.get('kind') == 'prog' and plan and case.get('cseed') is not None:
         c = build(plan[0], case['space'], case['cseed'], case['xclass'])
